@@ -92,6 +92,28 @@ package core
 //@      !anyGroup(target.Labels, target.Test != nil, state.Exclude))
 
 // ---------------------------------------------------------------------------------------------
+// Declared output hashes (C35)
+//
+//@ spec unprefixed(h string) string = ite(strings.LastIndexByte(h, ':') != -1, \
+//@      strings.TrimSpace(substr(h, strings.LastIndexByte(h, ':') + 1, len(h))), h)
+//
+//@ func (BuildTarget).UnprefixedHashes
+//@   requires target != nil
+//@   modifies nothing
+//@   invariant "range hashes" len: len(hashes) == len(old(target.Hashes))
+//@   invariant "range hashes" done: forall k int :: 0 <= k && k < idx ==> hashes[k] == unprefixed(old(target.Hashes)[k])
+//@   invariant "range hashes" todo: forall k int :: idx <= k && k < len(hashes) ==> hashes[k] == old(target.Hashes)[k]
+//@   ensures length [C35]: len(result) == len(old(target.Hashes))
+//@   ensures content [C35]: forall k int :: 0 <= k && k < len(result) ==> result[k] == unprefixed(old(target.Hashes)[k])
+//
+//@ assume func (BuildTarget).FullOutputs
+//@   pure
+//@ assume func (BuildState).IsOriginalTargetOrParent
+//@   pure
+//@ assume func (BuildState).OutputHashCheckers
+//@   pure
+
+// ---------------------------------------------------------------------------------------------
 // Coverage merging (C27)
 //
 //@ func MergeCoverageLines
